@@ -58,7 +58,7 @@ func init() {
 		ID: "C12",
 		Rule: "rapid histories of signed oracle price transactions through the full ante chain (1-5 validators with power splits around 2/3, 1-2 feeders with generated start blocks, intervals, end blocks and window sizes; agreeing, conflicting, duplicate, late and multi-source-round submissions in any order and block placement) plus stake changes that alter the validator set, against a round model; " +
 			"non-trivial = a history with at least one round closed by consensus and one closed by carry-forward, with at least 3 validators of unequal power; distinct = hash of the (kind, outcome) sequence",
-		Gen:      GenOpts{Weights: oracleWeights(), HostilePct: 10, ExtremePct: 0, Anchor: true, Tempos: []int{3, 8, 30}, CapBits: 40, ClampBits: 50},
+		Gen:      GenOpts{Weights: oracleWeights(), HostilePct: 10, ExtremePct: 0, Anchor: true, Tempos: []int{3, 8, 30}, CapBits: 40, ClampBits: 40},
 		MinSteps: 30,
 		MaxSteps: 110,
 		Config:   oracleConfig,
@@ -86,7 +86,7 @@ func init() {
 	base.ID, base.Name = "C13", "C13"
 	base.Rule = "the same histories with 35% perturbed submissions (every field: feeder id, base block, nonce, sources, decimals, timestamps around +5 s, size around 1000 bytes, forged / foreign / missing signatures, two messages in one transaction, former validators and ordinary accounts) in DeliverTx, CheckTx and ReCheckTx, against an admission/counting model with byte-level store and memory diffs; " +
 		"non-trivial = a history containing a rejected, an admitted-but-uncounted and a counted submission; distinct = hash of the (kind, outcome) sequence"
-	base.Gen = GenOpts{Weights: oracleWeights(), HostilePct: 35, ExtremePct: 0, Anchor: true, Tempos: []int{3, 8, 30}, CapBits: 40, ClampBits: 50}
+	base.Gen = GenOpts{Weights: oracleWeights(), HostilePct: 35, ExtremePct: 0, Anchor: true, Tempos: []int{3, 8, 30}, CapBits: 40, ClampBits: 40}
 	base.NonTrivial = func(m *Machine, invs []Invariant) (bool, []string) {
 		o := invs[0].(*oracleInv)
 		m.Labels["submissions-rejected"] += o.rejected
